@@ -132,7 +132,11 @@ def reset_antlr_caches():
 
 def shards(tier, seed):
     q = tier == "quick"
-    return [{"seed": s, "pool": 18 if q else 60, "schedules": 4 if q else 40, "tier": tier} for s in shard_seeds(seed, 16, "C12")]
+    out = [{"seed": s, "pool": 18 if q else 60, "schedules": 4 if q else 40, "tier": tier} for s in shard_seeds(seed, 16, "C12")]
+    # K-COLD (vf/cold.py): the first calls of a fresh interpreter overlap, thread A held inside the functions that write process-wide state
+    for i, s in enumerate(shard_seeds(seed, 4 if q else 12, "C12cold")):
+        out.append({"kind": "cold", "seed": s, "index": i, "pairs": 1 if q else 4, "max_points": 12 if q else 64, "tier": tier})
+    return out
 
 
 def gen_schedule(rnd, pool, force=None):
@@ -269,7 +273,118 @@ def _short(x):
     return s[:500]
 
 
+COLD_SOURCE = """def 0 for actor ACTOR_X {
+    $X = 3;
+    with (actor ACTOR_PLAYER) { Turn(1); }
+    if ($A == 1) { a(); } else { b(); }
+    switch ($B) { case 1: c(); break; default: d(); }
+    forever { e(); if (debug) { break_loop; } }
+    message_SwitchTalk ($V) { case 1: 'one' default: 'def' }
+    clear $Y;
+    hold;
+}
+macro m($p) { f($p); if ($C > 2) { return; } g(); }
+coro CO { ~m(4); $Z += 1; dungeon_mode(3) = 1; end; }
+"""
+
+
+def cold_run(spec, timeout=300):
+    import os
+    import subprocess
+    from vf.env import PY, REPO, VERIF
+    env = dict(os.environ, PYTHONPATH=REPO + os.pathsep + VERIF, PYTHONHASHSEED="0", PYTHONDONTWRITEBYTECODE="1", VERIF_REPO=REPO)
+    try:
+        p = subprocess.run([PY, "-m", "vf.cold"], input=json.dumps(spec), capture_output=True, text=True, env=env, timeout=timeout)
+        return json.loads(p.stdout) if p.returncode == 0 else None
+    except Exception:
+        return None
+
+
+def cold_check_point(acc, a, b, ga, gb, site, nth):
+    """one fresh interpreter: thread A held at its nth line inside `site`, thread B runs meanwhile. Returns False when A never got there."""
+    spec = {"mode": "pause", "a": a, "b": b, "site": site, "nth": nth}
+    q = cold_run(spec)
+    acc.count("cold_pause_runs")
+    if q is None or q.get("hung"):
+        acc.inconc("cold-start-run-failed", {"site": site["qualname"], "nth": nth})
+        return True
+    if not q.get("reached"):
+        return False
+    acc.count("cold_pause_points_reached")
+    if q.get("b_waited_for_a"):
+        acc.count("cold_pause_points_inside_a_lock_the_other_thread_waits_for")
+    acc.add_to_set("cold_pause_points", f"{site['qualname']}:{q.get('held_at_line')}")
+    acc.case(json.dumps([site["qualname"], nth, a.get("k"), b.get("k"), hist.digest(a), hist.digest(b)]), True)
+    for who, job, g, r in (("held thread", a, ga, q.get("a")), ("other thread", b, gb, q.get("b"))):
+        if r is None or g is None:
+            continue
+        diff = [f for f in hist.diff_fields(g, r) if f != "msg"]
+        if job["k"] != "compile" and not r.get("input_unchanged", True):
+            diff.append("input")
+        if diff:
+            acc.violation(gsig("first-calls-of-a-process-overlapped", "result-differs-from-sequential", job["k"], "+".join(diff)),
+                          {"which": who, "fields": diff, "writer_site": site["qualname"], "state_written_there": site.get("state"),
+                           "held_at_line": q.get("held_at_line"), "nth_line": nth,
+                           "sequential": {k: _short(g.get(k)) for k in diff}, "concurrent": {k: _short(r.get(k)) for k in diff}},
+                          {"cold": spec})
+    return True
+
+
+def run_cold(shard, acc):
+    from concurrent.futures import ThreadPoolExecutor
+    rnd = random.Random(shard["seed"] ^ 0xC01D)
+    scratch = tempfile.mkdtemp(prefix="verif_c12c_")
+    try:
+        c = norm.compile_exps(COLD_SOURCE)
+        fixed_d = {"k": "decompile_exps", "spec": json.loads(json.dumps(norm.spec_of(c.routine_infos, c.routine_ops, c.named_coroutines))), "cls": "fixed", "id": "fd"}
+        fixed_c = {"k": "compile", "text": COLD_SOURCE, "cls": "fixed", "id": "fc"}
+        pool = [j for j in hist.make_pool(shard["seed"], 24, scratch) if j["cls"] in ("valid", "compiled", "relaid", "flat", "cfg", "layout", "ssbscript", "macro-name-clash")]
+        dec = [fixed_d] + [j for j in pool if j["k"] != "compile"]
+        com = [fixed_c] + [j for j in pool if j["k"] == "compile"]
+        for pi in range(shard["pairs"]):
+            mode = (shard.get("index", 0) + pi) % 4
+            first = pi == 0
+            a = (dec if mode in (0, 2) else com)[0 if first else rnd.randrange(len(dec if mode in (0, 2) else com))]
+            bl = dec if mode in (0, 3) else com
+            b = bl[0] if (first and mode in (0, 1)) else rnd.choice(bl)
+            ga, gb = hist.golden(a), hist.golden(b)
+            if ga is None or gb is None:
+                acc.inconc("fresh-process-failed", {"job": a.get("cls")})
+                continue
+            acc.announce("cold-probe", {"a": a["k"], "b": b["k"]})
+            pr = cold_run({"mode": "probe", "a": a})
+            acc.count("cold_probes")
+            if pr is None:
+                acc.inconc("cold-start-probe-failed", {})
+                continue
+            acc.count("cold_probe_events", pr["events"])
+            acc.maxc("max:cold_state_names_watched", pr["state_names"])
+            if [f for f in hist.diff_fields(ga, pr["result"]) if f != "msg"]:
+                # (the probe is a single-threaded fresh process: this is C11's business, but it would make every comparison below moot)
+                acc.inconc("probe-result-differs-from-the-other-fresh-process", {"fields": hist.diff_fields(ga, pr["result"])})
+                continue
+            for w in pr["writers"]:
+                acc.add_to_set("cold_writer_sites", w["qualname"])
+                for st in w["state"]:
+                    acc.add_to_set("process_wide_state_written_by_a_first_call", st)
+            for w in pr["writers"]:
+                nths = list(range(1, shard["max_points"] + 1))
+                with ThreadPoolExecutor(4) as ex:
+                    for k in range(0, len(nths), 4):
+                        rs = list(ex.map(lambda n: cold_check_point(acc, a, b, ga, gb, w, n), nths[k:k + 4]))
+                        if not all(rs):
+                            break
+            acc.count("cold_pairs")
+            if first:
+                acc.sample({"cold_start": {"a": a["k"], "b": b["k"], "writer_sites": [{"site": w["qualname"], "state": w["state"]} for w in pr["writers"]]}})
+    finally:
+        shutil.rmtree(scratch, ignore_errors=True)
+
+
 def run_shard(shard, acc, forced=None):
+    if shard.get("kind") == "cold":
+        monitors.install()
+        return run_cold(shard, acc)
     monitors.install()
     hist.KCACHE.install()
     rnd = random.Random(shard["seed"] ^ 12)
@@ -281,6 +396,7 @@ def run_shard(shard, acc, forced=None):
             if gold[j["id"]].get("0") is None:
                 acc.inconc("fresh-process-failed", {"job": j["id"]})
         base = {"pool": {"seed": shard["seed"], "n": shard["pool"]}}
+        hist.KCLOCK.install()  # a thread that is kept from running sees time pass: clocks read by repository code jump ahead (vf/hist.py)
         if forced is not None:
             for _ in range(forced[1]):
                 run_schedule(acc, pool, gold, forced[0], base)
@@ -298,6 +414,9 @@ def run_shard(shard, acc, forced=None):
             acc.count("yields@" + k, v)
         for k, v in hist.KCACHE.counts.items():
             acc.count("K-CACHE:" + k, v)
+        acc.count("K-CLOCK:clock_readings_by_repository_code", hist.KCLOCK.reads)
+        for k, v in hist.KCLOCK.sites.items():
+            acc.count("K-CLOCK:site:" + k, v)
         acc.sample({"schedule": {k: v for k, v in sched.items() if k != "threads"}, "threads": sched["threads"][:4]})
     finally:
         shutil.rmtree(scratch, ignore_errors=True)
@@ -316,8 +435,23 @@ def summarize(agg, tier):
         "yields_injected_per_site": {k[7:]: v for k, v in c.items() if k.startswith("yields@")},
         "styles": {k[6:]: v for k, v in c.items() if k.startswith("style:")},
         "K-CACHE": {k[8:]: v for k, v in c.items() if k.startswith("K-CACHE:")},
+        "K-CLOCK": {"clock_readings_by_repository_code (each answered one hour ahead of the previous one)": c.get("K-CLOCK:clock_readings_by_repository_code", 0),
+                    "sites": {k[13:]: v for k, v in c.items() if k.startswith("K-CLOCK:site:")}},
+    }
+    cov["K-COLD"] = {
+        "rule": "fresh interpreters: a probe run finds the functions during which process-wide state of the repository's modules changes; "
+                "then one interpreter per (function, n): thread A is held at its n-th line inside the function while thread B runs a whole call",
+        "probes": c.get("cold_probes", 0), "job_pairs": c.get("cold_pairs", 0), "probe_events": c.get("cold_probe_events", 0),
+        "state_names_watched": c.get("max:cold_state_names_watched", 0),
+        "writer_sites": sorted(agg.get("sets", {}).get("cold_writer_sites", [])),
+        "process_wide_state_written_by_a_first_call": sorted(agg.get("sets", {}).get("process_wide_state_written_by_a_first_call", [])),
+        "pause_runs": c.get("cold_pause_runs", 0), "pause_points_reached": c.get("cold_pause_points_reached", 0),
+        "distinct_pause_points": len(agg.get("sets", {}).get("cold_pause_points", [])),
+        "pause_points_inside_a_lock_the_other_thread_waited_for": c.get("cold_pause_points_inside_a_lock_the_other_thread_waits_for", 0),
     }
     floors = []
+    if c.get("cold_pause_points_reached", 0) < 10:
+        floors.append("fewer than 10 cold-start pause points reached")
     need = 50 if tier == "quick" else 500
     if c.get("schedules", 0) < need:
         floors.append(f"fewer than {need} schedules")
@@ -329,5 +463,10 @@ def summarize(agg, tier):
 
 
 def replay(inp, acc):
+    if "cold" in inp:
+        sp = inp["cold"]
+        ga, gb = hist.golden(sp["a"]), hist.golden(sp["b"])
+        cold_check_point(acc, sp["a"], sp["b"], ga, gb, sp["site"], sp["nth"])
+        return
     shard = {"seed": inp["pool"]["seed"], "pool": inp["pool"]["n"], "schedules": 0, "tier": "quick"}
     run_shard(shard, acc, forced=(inp["schedule"], 20))
